@@ -23,5 +23,5 @@ pub mod strategy;
 pub mod vclock;
 
 pub use event::{Ev, Event, UserEv};
-pub use sim::{run, ClockCfg, ClockFault, ClockFaultKind, Failure, FaultPlan, RunConfig, RunResult};
+pub use sim::{run, Monitor, ClockCfg, ClockFault, ClockFaultKind, Failure, FaultPlan, RunConfig, RunResult};
 pub use strategy::StrategySpec;
